@@ -233,7 +233,7 @@ func c04Ref(sk skeleton) ([][]sqlx.Tok, error) {
 
 func c04Main(r *run.Runner) {
 	r.Rule = "for every skeleton (one per position kind where a literal or name can occur: 11 string positions, 16 name positions, 5 number positions) and every content over the stated alphabets up to length n, in every PQL spelling (single-quoted, double-quoted, all-escaped, back-tick), " +
-		"the program is compiled and the output is lexed under ClickHouse and standard rules: token count, kinds and all non-hole token texts must equal those of the same skeleton with the content HOLE, and the hole tokens must decode to the PQL value; " +
+		"plus skeletons whose hole comes after / before k other escaped literals or quoted names (k = 3..65) and long contents (0..300 bytes), the program is compiled and the output is lexed under ClickHouse and standard rules: token count, kinds and all non-hole token texts must equal those of the same skeleton with the content HOLE, and the hole tokens must decode to the PQL value; " +
 		"non-trivial = the program compiled and reached the comparison; distinct by construction (skeleton x content x spelling)"
 	r.Assume = []string{"target dialect for decoding is ClickHouse (backslash escapes); standard rules are used for structure and, when the value has no backslash, for decoding",
 		"string values are those the reference tokenizer assigns to the PQL spelling"}
